@@ -8,6 +8,7 @@ import (
 	"fmt"
 	"sort"
 	"strings"
+	"time"
 
 	"github.com/inbucket/inbucket/v3/pkg/config"
 
@@ -23,7 +24,7 @@ func init() {
 		Rule: "SMTP sessions of 1-5 transactions generated from (seed, case index) over naming{local,full,domain} x " +
 			"default-store{t,f} x backend{mem,file} (all 12 combinations occur) with sampled accept/store lists and recipient limit; " +
 			"recipients built from parts (plain, +ext, mixed case, specials, quoted, source routes, IP literals, invalid, duplicates, " +
-			"aliases of one mailbox); endings DATA/RSET/EHLO/second MAIL/QUIT/abrupt close. Oracle: full store snapshot delta after " +
+			"aliases of one mailbox); endings DATA/RSET/EHLO/second MAIL/QUIT/abrupt close/oversized DATA refused under a small size limit; plus rounds of 2-6 concurrent sessions delivering to 1-3 shared mailboxes. Oracle: full store snapshot delta after " +
 			"every transaction vs reference model over observed replies. A case is non-trivial and distinct by (config combo, sorted " +
 			"multiset of recipient classes with accept/store outcome, ending) when >=1 message was stored or >=1 accepted recipient was deliberately not stored.",
 		Assumptions: []string{
@@ -64,6 +65,156 @@ func run(c *fw.Ctx) {
 	c.Cases("session", n, func(i int, r *fw.Rand) {
 		runSession(c, i, r)
 	})
+	c.Cases("concurrent", c.N(240, 6000), func(i int, r *fw.Rand) {
+		runConcurrent(c, i, r)
+	})
+}
+
+// runConcurrent lets several SMTP sessions deliver at the same time, mostly to the same few
+// mailboxes; afterwards every mailbox must hold exactly one message per acknowledged,
+// storable recipient, each carrying the subject of its own transaction.
+func runConcurrent(c *fw.Ctx, idx int, r *fw.Rand) {
+	conf := sut.DefaultConf()
+	backend := []string{"mem", "file"}[idx%2]
+	if backend == "file" {
+		conf.Storage.Type = "file"
+		conf.Storage.Params = map[string]string{"path": c.TempDir("c01cc")}
+	}
+	env, err := sut.NewEnv(conf, backend)
+	if err != nil {
+		panic(err)
+	}
+	nsess := r.Range(2, 6)
+	boxes := []string{"shared", "other", "third"}[:r.Range(1, 3)]
+	type tx struct {
+		subject string
+		rcpts   []string
+	}
+	plans := make([][]tx, nsess)
+	for si := range plans {
+		for t := 0; t < r.Range(1, 3); t++ {
+			x := tx{subject: fmt.Sprintf("cc-%d-%d-%d", idx, si, t)}
+			for k := 0; k < r.Range(1, 3); k++ {
+				x.rcpts = append(x.rcpts, r.Pick(boxes)+"@alpha.test")
+			}
+			plans[si] = append(plans[si], x)
+		}
+	}
+	type result struct {
+		acked []tx
+		err   string
+	}
+	results := make([]result, nsess)
+	done := make(chan int, nsess)
+	start := make(chan struct{})
+	for si := 0; si < nsess; si++ {
+		go func(si int) {
+			defer func() { done <- si }()
+			ss := env.StartSMTP()
+			defer ss.Close()
+			<-start
+			if _, ok := ss.Greeting(); !ok {
+				results[si].err = "no greeting"
+				return
+			}
+			if _, err := ss.Cmd("EHLO cc.test"); err != nil {
+				results[si].err = err.Error()
+				return
+			}
+			for _, x := range plans[si] {
+				if rep, err := ss.Cmd("MAIL FROM:<s@sender.test>"); err != nil || rep.Code != 250 {
+					results[si].err = fmt.Sprintf("MAIL: %v %v", rep, err)
+					return
+				}
+				var ok []string
+				for _, a := range x.rcpts {
+					rep, err := ss.Cmd("RCPT TO:<" + a + ">")
+					if err != nil {
+						results[si].err = err.Error()
+						return
+					}
+					if rep.Code == 250 {
+						ok = append(ok, a)
+					}
+				}
+				if rep, err := ss.Cmd("DATA"); err != nil || rep.Code != 354 {
+					results[si].err = fmt.Sprintf("DATA: %v %v", rep, err)
+					return
+				}
+				body := sut.DotStuff([]byte("Subject: " + x.subject + "\r\n\r\nbody\r\n"))
+				rep, err := ss.Cmd(string(body[:len(body)-2]))
+				if err != nil {
+					results[si].err = err.Error()
+					return
+				}
+				if rep.Code == 250 {
+					results[si].acked = append(results[si].acked, tx{x.subject, ok})
+				}
+			}
+		}(si)
+	}
+	okAll, dump := c.Within(90*time.Second, func() {
+		close(start)
+		for i := 0; i < nsess; i++ {
+			<-done
+		}
+	})
+	if !okAll {
+		c.Hang("concurrent-sessions", "concurrent SMTP sessions did not finish", dump)
+		return
+	}
+	want := map[string]map[string]int{} // mailbox -> subject -> copies owed (distinct recipient strings)
+	total := 0
+	for si, res := range results {
+		if res.err != "" {
+			c.Violation("C01:concurrent-session-failed", fmt.Sprintf("session %d: %s", si, res.err), nil)
+			return
+		}
+		for _, x := range res.acked {
+			seen := map[string]bool{}
+			for _, a := range x.rcpts {
+				if seen[a] {
+					continue // duplicates may be stored once or twice; only demand one
+				}
+				seen[a] = true
+				mb := strings.SplitN(a, "@", 2)[0]
+				if want[mb] == nil {
+					want[mb] = map[string]int{}
+				}
+				want[mb][x.subject]++
+				total++
+			}
+		}
+	}
+	snap, err := sut.Snapshot(env.Store, boxes, false)
+	if err != nil {
+		c.Violation("C01:store-unreadable", err.Error(), nil)
+		return
+	}
+	for _, mb := range boxes {
+		have := map[string]int{}
+		for _, m := range snap[mb] {
+			have[m.Subject]++
+		}
+		for subj, n := range want[mb] {
+			if have[subj] < n {
+				c.Violation("C01:concurrent-delivery-lost", fmt.Sprintf("%s backend, %d sessions: mailbox %q holds %d copies of %q, at least %d acknowledged (mailbox has %d messages)",
+					backend, nsess, mb, have[subj], subj, n, len(snap[mb])), map[string]any{"plans": fmt.Sprint(plans)})
+				return
+			}
+		}
+		for subj := range have {
+			if want[mb][subj] == 0 {
+				c.Violation("C01:concurrent-unexpected-message", fmt.Sprintf("mailbox %q holds a message %q nobody was acknowledged for", mb, subj), nil)
+				return
+			}
+		}
+	}
+	c.Count("concurrent_rounds", 1)
+	c.Count("messages_stored", int64(total))
+	if total > 0 {
+		c.NonTrivial(fmt.Sprintf("concurrent|%s|%d|%d", backend, nsess, len(boxes)))
+	}
 }
 
 var namings = []string{"local", "full", "domain"}
@@ -88,6 +239,9 @@ func runSession(c *fw.Ctx, idx int, r *fw.Rand) {
 	conf.SMTP.AcceptDomains = []string{"accept.test", "alpha.test", "store.test", "discard.test", "beta.test", "[192.168.1.5]"}
 	conf.SMTP.RejectDomains = []string{"reject.test"}
 	conf.SMTP.MaxRecipients = []int{2, 5, 50}[r.Intn(3)]
+	if r.Chance(1, 3) {
+		conf.SMTP.MaxMessageBytes = 3000 // makes the "oversize" ending a refused transaction
+	}
 	if backend == "file" {
 		conf.Storage.Type = "file"
 		conf.Storage.Params = map[string]string{"path": c.TempDir("c01fs")}
@@ -201,12 +355,17 @@ func runTx(c *fw.Ctx, r *fw.Rand, env *sut.Env, ss *sut.SMTPSession, naming, com
 	sort.Strings(classes)
 
 	// Ending.
-	ending := r.Weighted([]int{60, 8, 8, 6, 6, 6, 6})
-	endName := []string{"data", "rset", "ehlo", "second-mail", "quit", "close", "data-no-rcpt-check"}[ending]
+	ending := r.Weighted([]int{60, 8, 8, 6, 6, 6, 6, 10})
+	endName := []string{"data", "rset", "ehlo", "second-mail", "quit", "close", "data-no-rcpt-check", "oversize"}[ending]
 	msg := genMessage(r)
+	if ending == 7 {
+		// Larger than the small limit some sessions run with: refused there (no RSET follows, the
+		// next transaction must start clean on its own), an ordinary delivery elsewhere.
+		msg.raw = append(msg.raw, []byte(strings.Repeat("0123456789abcdef0123456789abcde\r\n", 120))...)
+	}
 	expectStore := false
 	switch ending {
-	case 0, 6:
+	case 0, 6, 7:
 		rep, err := ss.Cmd("DATA")
 		if err != nil {
 			fail("C01:reply-shape", err.Error())
